@@ -214,8 +214,17 @@ func genXMLShapedMap(t *Tape, depth int, top bool) map[string]interface{} {
 	if top && t.Draw(3) == 0 {
 		n = 1
 	}
+	wide := false
+	if t.Draw(8) == 7 {
+		// a wide element: every width up to 24 keys (sorts that special-case a length show here)
+		n = 1 + t.Draw(24)
+		wide = true
+	}
 	for i := 0; i < n; i++ {
 		k := c16Keys[t.Draw(len(c16Keys))]
+		if wide {
+			k = fmt.Sprintf("k%02d", (i*7+t.Draw(3))%40)
+		}
 		if _, dup := m[k]; dup {
 			continue
 		}
@@ -241,7 +250,7 @@ func genXMLShapedMap(t *Tape, depth int, top bool) map[string]interface{} {
 }
 
 func jsonishStr(t *Tape) string {
-	return []string{"v", "", "hello world", "<&>", "a\"b'c", " sp ", "é☃", "1", "true", "x&amp;y", "]]>"}[t.Draw(11)]
+	return []string{"v", "", "hello world", "<&>", "a\"b'c", " sp ", "é☃", "1", "true", "x&amp;y", "]]>", "100%", "a%20b %s", "two\nlines", "50%% off"}[t.Draw(15)]
 }
 
 func genScalar(t *Tape) interface{} {
